@@ -43,9 +43,9 @@ def make_world(variant, two_clusters):
     reads = []
     n = [0]
 
-    def add(blocks, grp):
+    def add(blocks, grp, polya=False, strand="+"):
         n[0] += 1
-        reads.append(W.read_of("r%d_%s" % (n[0], grp), "chr1", blocks, polya=False))
+        reads.append(W.read_of("r%d_%s" % (n[0], grp), "chr1", blocks, polya=polya, strand=strand))
     slots = range(5) if not two_clusters else range(3)
     grp = itertools.cycle(["gA", "gB"])
     if two_clusters == 2:
@@ -59,6 +59,12 @@ def make_world(variant, two_clusters):
     for k in range(1, len(slots) + 1):
         for sub in itertools.combinations(slots, k):
             add([S(i) for i in sub], next(grp))
+    # reads with a polyA tail (polyT head) that end before annotated features further downstream (upstream): those features are
+    # beyond the molecule's end and must not be counted as skipped
+    if not two_clusters:
+        add([S(0), S(1), S(2)], next(grp), polya=True)
+        add([S(1), S(2), S(3)], next(grp), polya=True)
+        add([S(2), S(3), S(4)], next(grp), polya=True, strand="-")
     # alternative forms
     add([S(0), S(1, de=100), S(2)], next(grp))
     add([S(0), S(1, ds=60, de=-60), S(2)], next(grp))
